@@ -59,6 +59,17 @@ func c11Docs() []c11Doc {
 				F("kids", Al("p", F("pick").WithArgs(A("ss", []interface{}{V("s")}), A("e", world.EnumLit("RED"))))),
 			}}}},
 			[]c11Call{{"Q", nil}, {"Q", map[string]interface{}{"v": 5}}, {"Q", map[string]interface{}{"s": "z"}}, {"Q", map[string]interface{}{"v": 7, "s": "q"}}}},
+		{"vars-nested-below-a-variable-free-list", &world.Doc{Ops: []*world.Op{{Type: "query", Name: "Q",
+			Vars: []world.VarDef{{Name: "v", Type: "Int", HasDefault: true, Default: 1}},
+			Sels: []*world.Sel{
+				F("pick").WithArgs(A("fs", []interface{}{map[string]interface{}{"min": V("v")}, map[string]interface{}{"min": 9, "sub": map[string]interface{}{"min": V("v")}}}), A("m", []interface{}{[]interface{}{V("v"), 7}, []interface{}{}})),
+				F("kids", F("pick").WithArgs(A("m", []interface{}{[]interface{}{1}, []interface{}{2, V("v")}}))),
+			}}}},
+			[]c11Call{{"Q", nil}, {"Q", map[string]interface{}{"v": 5}}, {"Q", map[string]interface{}{"v": 6}}}},
+		{"input-object-variable-default", &world.Doc{Ops: []*world.Op{{Type: "query", Name: "Q",
+			Vars: []world.VarDef{{Name: "f", Type: "Filter", HasDefault: true, Default: map[string]interface{}{"min": 1}}, {Name: "l", Type: "[Filter]", HasDefault: true, Default: []interface{}{map[string]interface{}{"min": 2}}}},
+			Sels: []*world.Sel{F("pick").WithArgs(A("in", V("f")), A("fs", V("l"))), F("a", F("pick").WithArgs(A("in", V("f"))))}}}},
+			[]c11Call{{"Q", nil}, {"Q", map[string]interface{}{"f": map[string]interface{}{"min": 3.0}}}, {"Q", map[string]interface{}{}}}},
 		{"args-out-of-order", world.Q(
 			F("echo").WithArgs(A("b", true), A("s", "x")), F("tri").WithArgs(A("c", "3"), A("a", "1"), A("b", "2")),
 			F("a", F("echo").WithArgs(A("b", false), A("s", "y")), F("tri").WithArgs(A("b", "B"), A("c", "C"), A("a", "A")))),
